@@ -110,7 +110,7 @@ pub fn generate(run_seed: u64, corpus: &Corpus, sw: &Swarm, i: u64, exhaustive: 
         3..=5 => Client::PeekNext,
         6 => Client::LoadMulti,
         7 => Client::LoadSingle,
-        _ => Client::Loader(r.below(4) as u8, *r.pick(&[0u8, 0, 0, 0, 0, 1, 1, 1, 1, 2])),
+        _ => Client::Loader(r.below(4) as u8, *r.pick(&[0u8, 0, 0, 0, 3, 1, 1, 1, 3, 2])),
     };
     let peeks = if client == Client::PeekNext {
         let k = 1 + r.usize(7);
@@ -291,6 +291,38 @@ impl ParserVisitor for Drive<'_> {
                 max_depth = recv.max_depth;
                 end
             }
+            Client::Loader(node, 3) => {
+                // deferred resolution: the public YamlLoader with early_parse(false) driven through
+                // the push interface, then the scalars resolved afterwards
+                use saphyr::YamlLoader;
+                macro_rules! lazy {
+                    ($t:ty, $resolve:expr) => {{
+                        let mut loader: YamlLoader<'_, $t> = YamlLoader::default();
+                        loader.early_parse(false);
+                        match p.load(&mut loader, true) {
+                            Ok(()) => {
+                                let mut docs = loader.into_documents();
+                                let n = docs.len() as u64;
+                                #[allow(clippy::redundant_closure_call)]
+                                for d in &mut docs {
+                                    ($resolve)(d);
+                                }
+                                drop(docs);
+                                (End::Complete, n)
+                            }
+                            Err(e) => (End::Err(e), 0),
+                        }
+                    }};
+                }
+                let (end, n) = match node % 4 {
+                    0 => lazy!(Yaml<'_>, |d: &mut Yaml<'_>| { d.parse_representation_recursive(); }),
+                    1 => lazy!(YamlOwned, |d: &mut YamlOwned| { d.parse_representation_recursive(); }),
+                    2 => lazy!(MarkedYaml<'_>, |d: &mut MarkedYaml<'_>| { d.data.parse_representation_recursive(); }),
+                    _ => lazy!(MarkedYamlOwned, |d: &mut MarkedYamlOwned| { d.data.parse_representation_recursive(); }),
+                };
+                events = n;
+                end
+            }
             Client::Loader(node, _) => {
                 fn fin<T>(r: Result<Vec<T>, ScanError>) -> (End, u64) {
                     match r {
@@ -367,7 +399,7 @@ pub fn execute(case: &Case, record_seed: Option<u64>) -> Outcome {
     };
     clock::begin(work_budget(n), tape);
     let res = match case.client {
-        Client::Loader(node, via) if via != 0 => loader_direct(case, &prep, node, via),
+        Client::Loader(node, via) if via == 1 || via == 2 => loader_direct(case, &prep, node, via),
         _ => with_parser(case.input, &prep, Drive { case, max_events: event_budget(n) }),
     };
     let ticks = clock::ticks();
